@@ -1,6 +1,7 @@
-(* C14 — property theorems only.  Proofs are in C14/Proofs.v, C14/Frac.v (fractions, times, date and time), C14/Dtd.v (durations). *)
+(* C14 — property theorems only.  Proofs are in C14/Proofs.v, C14/Frac.v (fractions, times, date and time), C14/Dtd.v (printed durations),
+   C14/Literal.v (duration literals as written, oversized components), C14/ZoneDb.v (the zone database of the current build). *)
 From Coq Require Import ZArith Bool List String Ascii.
-From DV Require Import Base.Calendar C15.Model C14.Model C14.Proofs C14.Frac C14.Dtd.
+From DV Require Import Base.Calendar C15.Model C14.Model C14.Proofs C14.Frac C14.Dtd C14.Literal C14.ZoneDb Gen.ZoneIds.
 Import ListNotations.
 Open Scope string_scope.
 Open Scope Z_scope.
@@ -25,8 +26,8 @@ Proof. exact print_parse_date. Qed.
 Theorem C14_parse_date_valid : forall s y m d, parse_date s = Some (y, m, d) -> feel_date y m d = true.
 Proof. exact parse_date_valid. Qed.
 
-(* --- years-and-months durations of any magnitude (years component up to 2^64-1) --- *)
-Theorem C14_print_parse_ymd : forall n, Z.abs n / 12 <= u64_max -> parse_ymd (print_ymd n) = Some n.
+(* --- years-and-months durations: every total of months of either sign that the value type (i64) holds, -(2^63-1) .. 2^63-1 --- *)
+Theorem C14_print_parse_ymd : forall n, Z.abs n <= i64_max -> parse_ymd (print_ymd n) = Some n.
 Proof. exact print_parse_ymd. Qed.
 
 Theorem C14_ymd_normal_form : forall n, 0 <= Z.abs n mod 12 < 12 /\ print_ymd 14 = "P1Y2M" /\ print_ymd (-14) = "-P1Y2M" /\
@@ -94,8 +95,80 @@ Proof. exact print_parse_dtd_bound_tight. Qed.
 Theorem C14_print_parse_duration_dtd : forall n, dtd_days n <= u64_max -> parse_duration (print_dtd n) = Some (DDt n).
 Proof. exact print_parse_duration_dtd. Qed.
 
-Theorem C14_print_parse_duration_ymd : forall n, Z.abs n / 12 <= u64_max -> parse_duration (print_ymd n) = Some (DYm n).
+Theorem C14_print_parse_duration_ymd : forall n, Z.abs n <= i64_max -> parse_duration (print_ymd n) = Some (DYm n).
 Proof. exact print_parse_duration_ymd. Qed.
+
+(* --- duration literals AS WRITTEN: a text of either duration pattern is given by the digit lists of its written components
+   (wcomp = option (list Z): any number of digits, leading zeros; None = not written), the sign, and for the seconds an optional
+   fraction.  ymd_lit / dtd_lit build the text; wf_comp: a non-empty list of digits 0..9; wval: the written number. --- *)
+(* every years-and-months literal whose total fits the value type denotes 12 * years + months, whatever the spelling *)
+Theorem C14_ymd_literal_denotes : forall neg cy cm, wf_comp cy -> wf_comp cm -> written cy || written cm = true ->
+  wval cy * 12 + wval cm <= i64_max ->
+  parse_duration (ymd_lit neg cy cm) = Some (DYm (signed neg (wval cy * 12 + wval cm))).
+Proof. exact ymd_literal_denotes. Qed.
+
+(* every days-and-time literal whose written numbers fit u64 denotes the written sum of nanoseconds (fraction digits after the ninth dropped) *)
+Theorem C14_dtd_literal_denotes : forall neg cd ch cmi cs fr, wf_comp cd -> wf_comp ch -> wf_comp cmi -> wf_comp cs -> wf_frac fr ->
+  written cd || written ch || written cmi || written cs = true ->
+  wval cd <= u64_max -> wval ch <= u64_max -> wval cmi <= u64_max -> wval cs <= u64_max ->
+  parse_duration (dtd_lit neg cd ch cmi cs fr) =
+  Some (DDt (signed neg (wval cd * DAY_NS + wval ch * HOUR_NS + wval cmi * MIN_NS + sec_nanos cs fr))).
+Proof. exact dtd_literal_denotes. Qed.
+
+(* one written number above 2^64-1 (oversized c := u64_max < wval c), in any position, next to any other components, either sign:
+   duration(text) is null -- the literal is never read as the duration of its remaining components *)
+Theorem C14_oversized_component_rejected :
+  (forall neg cy cm, wf_comp cy -> wf_comp cm -> oversized cy \/ oversized cm ->
+     parse_duration (ymd_lit neg cy cm) = None) /\
+  (forall neg cd ch cmi cs fr, wf_comp cd -> wf_comp ch -> wf_comp cmi -> wf_comp cs -> wf_frac fr ->
+     oversized cd \/ oversized ch \/ oversized cmi \/ oversized cs ->
+     parse_duration (dtd_lit neg cd ch cmi cs fr) = None).
+Proof. exact oversized_component_rejected. Qed.
+
+(* a total of months beyond i64 is rejected as well *)
+Theorem C14_ymd_beyond_i64_rejected : forall neg cy cm, wf_comp cy -> wf_comp cm ->
+  i64_max < wval cy * 12 + wval cm -> parse_duration (ymd_lit neg cy cm) = None.
+Proof. exact ymd_beyond_i64_rejected. Qed.
+
+(* the code before the repair (parse_duration_orig: a component that does not fit u64 is skipped) read such literals as a different duration *)
+Theorem C14_oversized_component_orig_refuted :
+  parse_duration_orig "P99999999999999999999Y1M" = Some (DYm 1) /\ parse_duration "P99999999999999999999Y1M" = None /\
+  parse_duration_orig "-P99999999999999999999Y2M" = Some (DYm (-2)) /\ parse_duration "-P99999999999999999999Y2M" = None /\
+  parse_duration_orig "P18446744073709551616DT1H" = Some (DDt HOUR_NS) /\ parse_duration "P18446744073709551616DT1H" = None /\
+  parse_duration_orig "PT1H99999999999999999999.5S" = Some (DDt (HOUR_NS + 500000000)) /\ parse_duration "PT1H99999999999999999999.5S" = None /\
+  parse_duration "P18446744073709551615DT1H" = Some (DDt (u64_max * DAY_NS + HOUR_NS)).
+Proof. exact oversized_component_orig_refuted. Qed.
+
+Example C14_literal_nonvacuous :
+  ymd_lit true (Some [0; 1]) (Some [1; 4]) = "-P01Y14M" /\
+  parse_duration (ymd_lit true (Some [0; 1]) (Some [1; 4])) = Some (DYm (-26)) /\
+  dtd_lit false (Some [2]) None (Some [9; 0]) (Some [0; 7]) (Some [5]) = "P2DT90M07.5S" /\
+  parse_duration (dtd_lit false (Some [2]) None (Some [9; 0]) (Some [0; 7]) (Some [5])) = Some (DDt (2 * DAY_NS + 90 * MIN_NS + 7 * NS + 500000000)) /\
+  dtd_lit false (Some (digits (u64_max + 1))) (Some [1]) None None None = "P18446744073709551616DT1H" /\
+  oversized (Some (digits (u64_max + 1))) /\ wf_comp (Some (digits (u64_max + 1))).
+Proof. exact literal_nonvacuous. Qed.
+
+(* --- the zone database of the current build (tzdb = membership in chrono_tz_zone_ids, coq/Gen/ZoneIds.v, regenerated on every run from
+   the table of the pinned chrono-tz crate): every identifier is non-empty and made of characters of the zone pattern (decided over the
+   whole list), so the zone / time / date-and-time round trips hold for every zone of the real database with no side condition --- *)
+Theorem C14_zone_db_ok :
+  chrono_tz_zone_ids <> [] /\
+  (forall id, tzdb id = true -> id <> "" /\ all_chars zone_char id = true) /\
+  (forall id, tzdb id = true -> parse_zone tzdb (print_zone (ZNamed id)) = Some (ZNamed id)) /\
+  (forall h mi s ns id, 0 <= h < 24 -> 0 <= mi < 60 -> 0 <= s < 60 -> 0 <= ns <= 999999999 -> tzdb id = true ->
+     let t := {| t_h := h; t_mi := mi; t_s := s; t_ns := ns; t_zone := ZNamed id |} in
+     parse_time tzdb (print_time t) = Some t /\
+     forall y m d, feel_date y m d = true ->
+       parse_datetime tzdb (print_datetime ((y, m, d), t)) = Some ((y, m, d), t) /\
+       bif_date_and_time tzdb (print_datetime ((y, m, d), t)) = Some ((y, m, d), t)).
+Proof. exact zone_db_ok. Qed.
+
+Example C14_zone_db_nonvacuous :
+  tzdb "Europe/Warsaw" = true /\ tzdb "Etc/GMT+1" = true /\ tzdb "America/Port-au-Prince" = true /\ tzdb "EST5EDT" = true /\
+  tzdb "Nowhere/City" = false /\ tzdb "europe/warsaw" = false /\
+  option_map print_time (parse_time tzdb "10:00:00.5@America/Port-au-Prince") = Some "10:00:00.5@America/Port-au-Prince" /\
+  parse_time tzdb "10:00:00@Nowhere/City" = None.
+Proof. exact zone_db_nonvacuous. Qed.
 
 Example C14_nonvacuous :
   parse_date "2024-02-29" = Some (2024, 2, 29) /\ parse_date "2023-02-29" = None /\
@@ -124,3 +197,11 @@ Print Assumptions C14_print_parse_dtd_bound_tight.
 Print Assumptions C14_print_parse_duration_dtd.
 Print Assumptions C14_print_parse_duration_ymd.
 Print Assumptions C14_nonvacuous.
+Print Assumptions C14_ymd_literal_denotes.
+Print Assumptions C14_dtd_literal_denotes.
+Print Assumptions C14_oversized_component_rejected.
+Print Assumptions C14_ymd_beyond_i64_rejected.
+Print Assumptions C14_oversized_component_orig_refuted.
+Print Assumptions C14_literal_nonvacuous.
+Print Assumptions C14_zone_db_ok.
+Print Assumptions C14_zone_db_nonvacuous.
